@@ -1,1 +1,440 @@
-// shared helpers for the enumc harness binaries
+//! Shared helpers for the enumc harness binaries (E4: bounded-exhaustive input spaces against
+//! independent references).
+//!
+//! * `sha3`   -- an independent SHA3-256 (Keccak-f[1600], FIPS 202) written here, so that the
+//!               setsum reference does not reuse the `sha3` crate the subject links against.
+//! * `primes` -- the eight largest primes below 2^32 by trial division, plus a reader for the
+//!               `SETSUM_PRIMES` literal in the subject's source text (cross-check only).
+//! * `pyref`  -- one `python3 -c` call to `hashlib.sha3_256` to cross-check the Keccak above.
+//! * `child`  -- run a sweep over hostile inputs in child processes (re-exec of the same binary)
+//!               so that an abort (allocation failure, stack overflow) is observed, not suffered.
+
+pub mod tup;
+pub mod tupcheck;
+pub mod hostile;
+
+pub mod sha3 {
+    /// Keccak-f[1600], the compact formulation of the Keccak team's reference code: round
+    /// constants from the degree-8 LFSR, rotation offsets from the (t+1)(t+2)/2 walk.
+    pub fn keccak_f1600(a: &mut [u64; 25]) {
+        let mut lfsr: u8 = 0x01;
+        for _round in 0..24 {
+            // theta
+            let mut c = [0u64; 5];
+            for x in 0..5 {
+                c[x] = a[x] ^ a[x + 5] ^ a[x + 10] ^ a[x + 15] ^ a[x + 20];
+            }
+            for x in 0..5 {
+                let d = c[(x + 4) % 5] ^ c[(x + 1) % 5].rotate_left(1);
+                for y in 0..5 {
+                    a[x + 5 * y] ^= d;
+                }
+            }
+            // rho and pi
+            let (mut x, mut y) = (1usize, 0usize);
+            let mut cur = a[1];
+            let mut r = 0u32;
+            for j in 0..24u32 {
+                r += j + 1;
+                let ny = (2 * x + 3 * y) % 5;
+                x = y;
+                y = ny;
+                let tmp = a[x + 5 * y];
+                a[x + 5 * y] = cur.rotate_left(r % 64);
+                cur = tmp;
+            }
+            // chi
+            for y in 0..5 {
+                let row = [a[5 * y], a[5 * y + 1], a[5 * y + 2], a[5 * y + 3], a[5 * y + 4]];
+                for x in 0..5 {
+                    a[x + 5 * y] = row[x] ^ (!row[(x + 1) % 5] & row[(x + 2) % 5]);
+                }
+            }
+            // iota
+            for j in 0..7 {
+                let hi = lfsr & 0x80 != 0;
+                lfsr <<= 1;
+                if hi {
+                    lfsr ^= 0x71;
+                }
+                if lfsr & 2 != 0 {
+                    a[0] ^= 1u64 << ((1u32 << j) - 1);
+                }
+            }
+        }
+    }
+
+    /// SHA3-256: rate 136 bytes, domain suffix 0x06, final bit 0x80.
+    pub fn sha3_256(data: &[u8]) -> [u8; 32] {
+        const RATE: usize = 136;
+        let mut st = [0u64; 25];
+        let absorb = |st: &mut [u64; 25], block: &[u8]| {
+            for (i, chunk) in block.chunks(8).enumerate() {
+                let mut w = [0u8; 8];
+                w[..chunk.len()].copy_from_slice(chunk);
+                st[i] ^= u64::from_le_bytes(w);
+            }
+            keccak_f1600(st);
+        };
+        let mut off = 0;
+        while data.len() - off >= RATE {
+            absorb(&mut st, &data[off..off + RATE]);
+            off += RATE;
+        }
+        let mut last = [0u8; RATE];
+        let rem = data.len() - off;
+        last[..rem].copy_from_slice(&data[off..]);
+        last[rem] ^= 0x06;
+        last[RATE - 1] ^= 0x80;
+        absorb(&mut st, &last);
+        let mut out = [0u8; 32];
+        for i in 0..4 {
+            out[8 * i..8 * i + 8].copy_from_slice(&st[i].to_le_bytes());
+        }
+        out
+    }
+
+    /// The two FIPS 202 example digests everybody knows (empty message, "abc").  Machinery
+    /// self-test: a wrong Keccak must never become a verdict about the subject.
+    pub fn self_test() -> Result<(), String> {
+        let kats: [(&[u8], &str); 2] = [
+            (b"", "a7ffc6f8bf1ed76651c14756a061d662f580ff4de43b49fa82d80a4b80f8434a"),
+            (b"abc", "3a985da74fe225b2045c172d6bd390bd855f086e3e9d525b46bfe24511431532"),
+        ];
+        for (m, want) in kats {
+            let got = super::hex(&sha3_256(m));
+            if got != want {
+                return Err(format!("harness SHA3-256 of {m:?} = {got}, FIPS 202 says {want}"));
+            }
+        }
+        Ok(())
+    }
+}
+
+pub fn hex(bytes: &[u8]) -> String {
+    let mut s = String::with_capacity(bytes.len() * 2);
+    for b in bytes {
+        s.push(char::from_digit((*b >> 4) as u32, 16).unwrap());
+        s.push(char::from_digit((*b & 15) as u32, 16).unwrap());
+    }
+    s
+}
+
+pub fn unhex(s: &str) -> Option<Vec<u8>> {
+    if s.len() % 2 != 0 || !s.is_ascii() {
+        return None;
+    }
+    let b = s.as_bytes();
+    let mut out = Vec::with_capacity(b.len() / 2);
+    for i in (0..b.len()).step_by(2) {
+        let hi = (b[i] as char).to_digit(16)?;
+        let lo = (b[i + 1] as char).to_digit(16)?;
+        out.push((hi * 16 + lo) as u8);
+    }
+    Some(out)
+}
+
+pub mod primes {
+    fn is_prime(n: u64) -> bool {
+        if n < 2 {
+            return false;
+        }
+        let mut d = 2u64;
+        while d * d <= n {
+            if n % d == 0 {
+                return false;
+            }
+            d += 1;
+        }
+        true
+    }
+
+    /// The `n` largest primes below 2^32, largest first (trial division; 2^16 divisors each).
+    pub fn largest_below_2_32(n: usize) -> Vec<u64> {
+        let mut v = vec![];
+        let mut c = (1u64 << 32) - 1;
+        while v.len() < n {
+            if is_prime(c) {
+                v.push(c);
+            }
+            c -= 1;
+        }
+        v
+    }
+
+    /// The integer literals of `const SETSUM_PRIMES ... = [ ... ];` in the subject's source text.
+    pub fn from_source(path: &str) -> Result<Vec<u64>, String> {
+        let text = std::fs::read_to_string(path).map_err(|e| format!("{path}: {e}"))?;
+        let start = text
+            .find("const SETSUM_PRIMES")
+            .ok_or_else(|| format!("{path}: no SETSUM_PRIMES"))?;
+        let rest = &text[start..];
+        let eq = rest.find('=').ok_or("no = after SETSUM_PRIMES")?;
+        let rest = &rest[eq..];
+        let open = rest.find('[').ok_or("no [ after SETSUM_PRIMES =")?;
+        let close = rest.find(']').ok_or("no ] after SETSUM_PRIMES =")?;
+        let mut v = vec![];
+        for tok in rest[open + 1..close].split(',') {
+            let tok = tok.trim().replace('_', "");
+            if tok.is_empty() {
+                continue;
+            }
+            v.push(tok.parse::<u64>().map_err(|e| format!("prime literal {tok:?}: {e}"))?);
+        }
+        Ok(v)
+    }
+}
+
+pub mod pyref {
+    /// SHA3-256 of each message by CPython's hashlib, one process for all messages.  `None` when
+    /// python3 (or its sha3) is unavailable.
+    pub fn sha3_256_all(msgs: &[Vec<u8>]) -> Option<Vec<[u8; 32]>> {
+        use std::io::Write;
+        use std::process::{Command, Stdio};
+        let prog = "import sys,hashlib\nfor l in sys.stdin:\n    print(hashlib.sha3_256(bytes.fromhex(l.strip())).hexdigest())\n";
+        let mut ch = Command::new("python3")
+            .arg("-c")
+            .arg(prog)
+            .stdin(Stdio::piped())
+            .stdout(Stdio::piped())
+            .stderr(Stdio::null())
+            .spawn()
+            .ok()?;
+        {
+            let mut si = ch.stdin.take()?;
+            for m in msgs {
+                writeln!(si, "{}", super::hex(m)).ok()?;
+            }
+        }
+        let out = ch.wait_with_output().ok()?;
+        if !out.status.success() {
+            return None;
+        }
+        let text = String::from_utf8(out.stdout).ok()?;
+        let mut v = vec![];
+        for l in text.lines() {
+            let b = super::unhex(l.trim())?;
+            if b.len() != 32 {
+                return None;
+            }
+            let mut d = [0u8; 32];
+            d.copy_from_slice(&b);
+            v.push(d);
+        }
+        if v.len() == msgs.len() { Some(v) } else { None }
+    }
+}
+
+pub mod child {
+    //! Hostile-input sweeps run in re-executed children.  A sweep is a list of numbered
+    //! partitions; a child runs a set of partitions on worker threads, each worker writes the id
+    //! of the partition it is about to run into its own progress file, and the child finally
+    //! writes a `Partial` as JSON.  When a child dies, the parent re-runs each in-flight partition
+    //! alone in "fine" mode, where the single worker writes every case id ahead, so that the
+    //! aborting input is identified exactly.
+
+    use std::collections::BTreeSet;
+    use std::path::{Path, PathBuf};
+    use std::process::Command;
+
+    use vcore::{Report, Value, Violation, json};
+
+    /// What a child hands back (sets travel as hash lists).
+    #[derive(Default)]
+    pub struct Partial {
+        pub evaluations: u64,
+        pub transitions: u64,
+        pub traces_validated: u64,
+        pub states: Vec<u64>,
+        pub nontrivial: Vec<u64>,
+        pub outcomes: Vec<u64>,
+        pub counters: Vec<(String, u64)>,
+        pub violations: Vec<(String, String, String, Value)>,
+        pub violation_counts: Vec<(String, u64)>,
+        pub samples: Vec<Value>,
+    }
+
+    pub fn report_to_json(r: &Report) -> Value {
+        json!({
+            "evaluations": r.evaluations,
+            "transitions": r.transitions,
+            "traces_validated": r.traces_validated,
+            "states": r.states.iter().collect::<Vec<_>>(),
+            "nontrivial": r.nontrivial.iter().collect::<Vec<_>>(),
+            "outcomes": r.outcomes.iter().collect::<Vec<_>>(),
+            "counters": r.counters,
+            "violations": r.violations.iter().map(|v| json!({
+                "property": v.property, "signature": v.signature, "detail": v.detail, "case": v.case,
+            })).collect::<Vec<_>>(),
+            "violation_sigs": r.violation_sigs,
+            "samples": r.samples,
+        })
+    }
+
+    pub fn merge_json_into(r: &mut Report, v: &Value) {
+        let u = |k: &str| v[k].as_u64().unwrap_or(0);
+        r.evaluations += u("evaluations");
+        r.transitions += u("transitions");
+        r.traces_validated += u("traces_validated");
+        for (k, set) in [("states", 0), ("nontrivial", 1), ("outcomes", 2)] {
+            if let Some(a) = v[k].as_array() {
+                for h in a {
+                    if let Some(h) = h.as_u64() {
+                        match set {
+                            0 => r.states.insert(h),
+                            1 => r.nontrivial.insert(h),
+                            _ => r.outcomes.insert(h),
+                        };
+                    }
+                }
+            }
+        }
+        if let Some(m) = v["counters"].as_object() {
+            for (k, n) in m {
+                r.count(k, n.as_u64().unwrap_or(0));
+            }
+        }
+        // occurrences first (Report::violation counts one per call), then the kept cases
+        let mut kept: std::collections::BTreeMap<String, u64> = Default::default();
+        if let Some(a) = v["violations"].as_array() {
+            for x in a {
+                let sig = x["signature"].as_str().unwrap_or("").to_string();
+                *kept.entry(sig.clone()).or_insert(0) += 1;
+                r.violation(Violation {
+                    property: x["property"].as_str().unwrap_or("").to_string(),
+                    signature: sig,
+                    detail: x["detail"].as_str().unwrap_or("").to_string(),
+                    case: x["case"].clone(),
+                });
+            }
+        }
+        if let Some(m) = v["violation_sigs"].as_object() {
+            for (k, n) in m {
+                let n = n.as_u64().unwrap_or(0);
+                let already = kept.get(k).copied().unwrap_or(0);
+                if n > already {
+                    *r.violation_sigs.entry(k.clone()).or_insert(0) += n - already;
+                }
+            }
+        }
+        if let Some(a) = v["samples"].as_array() {
+            for s in a {
+                r.sample(s.clone());
+            }
+        }
+    }
+
+    pub fn progress_path(dir: &Path, worker: usize) -> PathBuf {
+        dir.join(format!("progress-{worker}"))
+    }
+
+    /// Worker side: note what is about to run (kernel buffers survive an abort of the process).
+    pub fn write_ahead(path: &Path, what: &str) {
+        let _ = std::fs::write(path, what);
+    }
+
+    pub struct Outcome {
+        /// merged JSON partials of the children that completed
+        pub partials: Vec<Value>,
+        /// (partition, last case id written ahead in fine mode, how the child died)
+        pub aborts: Vec<(usize, String, String)>,
+        pub children: u64,
+    }
+
+    /// Parent side.  `extra` are passed through to every child (tier, sweep name ...).
+    pub fn run_sweep(
+        sweep: &str,
+        partitions: usize,
+        threads: usize,
+        extra: &[String],
+        scratch: &Path,
+    ) -> Result<Outcome, String> {
+        let exe = std::env::current_exe().map_err(|e| e.to_string())?;
+        let mut todo: BTreeSet<usize> = (0..partitions).collect();
+        let mut out = Outcome {
+            partials: vec![],
+            aborts: vec![],
+            children: 0,
+        };
+        let mut round = 0;
+        while !todo.is_empty() {
+            round += 1;
+            if round > partitions + 2 {
+                return Err("child sweep does not converge".into());
+            }
+            let dir = scratch.join(format!("{sweep}-round{round}"));
+            std::fs::create_dir_all(&dir).map_err(|e| e.to_string())?;
+            let list: Vec<String> = todo.iter().map(|p| p.to_string()).collect();
+            let partial = dir.join("partial.json");
+            let st = Command::new(&exe)
+                .arg("--child")
+                .arg(sweep)
+                .arg("--parts")
+                .arg(list.join(","))
+                .arg("--threads")
+                .arg(threads.to_string())
+                .arg("--progress-dir")
+                .arg(&dir)
+                .arg("--partial")
+                .arg(&partial)
+                .args(extra)
+                .status()
+                .map_err(|e| format!("cannot spawn child: {e}"))?;
+            out.children += 1;
+            if st.success() && partial.exists() {
+                let text = std::fs::read_to_string(&partial).map_err(|e| e.to_string())?;
+                out.partials
+                    .push(serde_json::from_str(&text).map_err(|e| e.to_string())?);
+                break;
+            }
+            // the child died: which partitions were in flight?
+            let mut inflight = BTreeSet::new();
+            for w in 0..threads.max(1) {
+                if let Ok(s) = std::fs::read_to_string(progress_path(&dir, w)) {
+                    if let Some(p) = s.split_whitespace().next().and_then(|x| x.parse::<usize>().ok()) {
+                        if todo.contains(&p) {
+                            inflight.insert(p);
+                        }
+                    }
+                }
+            }
+            if inflight.is_empty() {
+                return Err(format!(
+                    "child for sweep {sweep} died ({st}) without progress information"
+                ));
+            }
+            for p in inflight {
+                let fdir = scratch.join(format!("{sweep}-fine{p}"));
+                std::fs::create_dir_all(&fdir).map_err(|e| e.to_string())?;
+                let fpartial = fdir.join("partial.json");
+                let fst = Command::new(&exe)
+                    .arg("--child")
+                    .arg(sweep)
+                    .arg("--parts")
+                    .arg(p.to_string())
+                    .arg("--threads")
+                    .arg("1")
+                    .arg("--fine")
+                    .arg("--progress-dir")
+                    .arg(&fdir)
+                    .arg("--partial")
+                    .arg(&fpartial)
+                    .args(extra)
+                    .status()
+                    .map_err(|e| format!("cannot spawn child: {e}"))?;
+                out.children += 1;
+                if fst.success() && fpartial.exists() {
+                    // did not die alone: keep its result
+                    let text = std::fs::read_to_string(&fpartial).map_err(|e| e.to_string())?;
+                    out.partials
+                        .push(serde_json::from_str(&text).map_err(|e| e.to_string())?);
+                } else {
+                    let last = std::fs::read_to_string(progress_path(&fdir, 0)).unwrap_or_default();
+                    out.aborts.push((p, last, format!("{fst}")));
+                }
+                todo.remove(&p);
+            }
+        }
+        Ok(out)
+    }
+}
